@@ -49,13 +49,14 @@ func (bb *DefaultBallotBroadcaster) Ballot(
 func (bb *DefaultBallotBroadcaster) Broadcast(bl base.Ballot) error {
 	l := bb.Log().With().Interface("ballot", bl).Logger()
 
-	if err := bb.set(bl); err != nil {
+	nbl, err := bb.set(bl)
+	if err != nil {
 		l.Error().Err(err).Msg("failed to set ballot")
 
 		return err
 	}
 
-	if err := bb.broadcastFunc(bl); err != nil {
+	if err := bb.broadcastFunc(nbl); err != nil {
 		l.Error().Err(err).Msg("failed to broadcast ballot; keep going")
 
 		return err
@@ -66,17 +67,41 @@ func (bb *DefaultBallotBroadcaster) Broadcast(bl base.Ballot) error {
 	return nil
 }
 
-func (bb *DefaultBallotBroadcaster) set(bl base.Ballot) error {
+// set sets the local ballot to pool and returns the ballot to be broadcasted.
+// If the other local ballot of the same stage point is already in pool, the
+// given ballot is not broadcasted, the ballot in pool is broadcasted instead;
+// local node should not broadcast the different ballots for one stage point.
+func (bb *DefaultBallotBroadcaster) set(bl base.Ballot) (base.Ballot, error) {
 	bb.l.Lock()
 	defer bb.l.Unlock()
 
 	if !bl.SignFact().Node().Equal(bb.local) {
-		return nil
+		return bl, nil
 	}
 
-	if _, err := bb.pool.SetBallot(bl); err != nil {
-		return errors.WithMessage(err, "set ballot to pool")
+	switch isset, err := bb.pool.SetBallot(bl); {
+	case err != nil:
+		return nil, errors.WithMessage(err, "set ballot to pool")
+	case isset:
+		return bl, nil
 	}
 
-	return nil
+	switch pbl, found, err := bb.pool.Ballot(
+		bl.Point().Point,
+		bl.Point().Stage(),
+		isaac.IsSuffrageConfirmBallotFact(bl.SignFact().Fact()),
+	); {
+	case err != nil:
+		return nil, errors.WithMessage(err, "get ballot from pool")
+	case !found,
+		pbl.SignFact().Fact().Hash().Equal(bl.SignFact().Fact().Hash()):
+		return bl, nil
+	default:
+		bb.Log().Debug().
+			Interface("ballot", bl).
+			Interface("ballot_in_pool", pbl).
+			Msg("different ballot already in pool; ballot in pool will be broadcasted")
+
+		return pbl, nil
+	}
 }
